@@ -19,6 +19,8 @@ void scen_c15_env(mt_case *);
 void scen_c15_hist(mt_case *);
 void scen_c17(mt_case *);
 void scen_c17_mtbb(mt_case *);
+void scen_c18(mt_case *);
+void scen_c19(mt_case *);
 void scen_c20(mt_case *);
 const mt_scenario mt_scenarios[] = {
   { 1, "C01 create/join", scen_c01 },
@@ -40,6 +42,8 @@ const mt_scenario mt_scenarios[] = {
   { 35, "C15 init/fini histories", scen_c15_hist },
   { 17, "C17 bulk fork-join (C API)", scen_c17 },
   { 27, "C17 mtbb task_group / parallel_for", scen_c17_mtbb },
+  { 18, "C18 DAG recorder totals", scen_c18 },
+  { 19, "C19 DAG files", scen_c19 },
   { 20, "C20 sleep and timed waits", scen_c20 },
   { 22, "C02 library with custom steal function", scen_c02_lib },
 };
